@@ -61,7 +61,7 @@ def gen_case(rng):
         # a long stretch of overruns: the loop falls more than a second behind and must still catch up on the grid
         n_over = (1200000 // P) // 2 + 5
         bodies = [rng.choice([3 * P, 2 * P + 1, 3 * P - 1]) for _ in range(min(n_over, 70))] + [0] * min(2 * n_over + 4, 150) + bodies[:5]
-    return {"mode": "threaded", "P": P, "bodies": bodies, "after_free": rng.choice([1, 2]), "use_with": rng.random() < 0.6, "exit_exc": rng.random() < 0.4,
+    return {"mode": "threaded", "P": P, "bodies": bodies, "after_free": rng.choice([1, 2]), "use_with": rng.random() < 0.6, "exit_exc": rng.random() < 0.4, "by_keyword": rng.random() < 0.5,
             "start_offset": rng.randrange(0, 5000)}
 
 
@@ -111,7 +111,7 @@ def run_threaded(acc, case):
                 except Boom:
                     pass
             else:
-                d = pd.NotifierDelay(P / 1e6)
+                d = pd.NotifierDelay(delay_period=P / 1e6) if case.get("by_keyword") else pd.NotifierDelay(P / 1e6)
                 box["d"] = d
                 loop(d)
                 d.free()
